@@ -112,6 +112,10 @@ impl SExec {
                 let (si, t) = (pi(*spender), *token as usize % 2);
                 let a = self.amt(amount, t, si);
                 let tok = Token { address: self.tokens[t].clone(), amount: a };
+                if *spender == 200 {
+                    self.self_spender(ctx, t, a, *abort);
+                    return;
+                }
                 let pl = payload.resolve();
                 let (c, d) = (chain.resolve(), addr.resolve());
                 let md = vec![0xabu8; *meta as usize % 4];
@@ -250,6 +254,24 @@ impl SExec {
         }
     }
 
+    /// the gas service's own address named as spender by an outside caller: nobody can
+    /// authorise for it, so the payment must be refused
+    fn self_spender(&mut self, ctx: &mut Ctx, t: usize, a: i128, abort: Option<u16>) {
+        let env = self.sim.env.clone();
+        let gas = self.gas.clone();
+        let a = if a <= 0 { 1 } else { a.min(self.m.held[t].max(1)) };
+        let tok = Token { address: self.tokens[t].clone(), amount: a };
+        let args: SVec<Val> = (self.p[2].clone(), SStr::from_str(&env, "ethereum"), SStr::from_str(&env, "0xdest"), Bytes::from_slice(&env, &[1, 2, 3]), gas.clone(), tok, Bytes::new(&env)).into_val(&env);
+        ctx.count("probe.contract_address_named_as_spender_from_outside");
+        ctx.judged(&["C07", "C14"], hash_of(&self.m), "pay_gas", "self-spender");
+        let res = self.sim.call(&gas, "pay_gas", args, &[], abort);
+        if !after_call(ctx, &res, "pay_gas", &["C14"]) {
+            return;
+        }
+        ctx.count(&format!("op.pay_gas.self-spender.{}", res.out.class()));
+        must_fail(ctx, &res, &["C07", "C14"], "pay_gas/accepted-with-service-as-unauthorised-spender", "the service's own address was named as spender by an outside caller");
+    }
+
     #[allow(clippy::too_many_arguments)]
     fn spender_auth(&mut self, ctx: &mut Ctx, func: &'static str, auth: AuthVar, si: usize, args: &SVec<Val>, xfer: &SVec<Val>, t: usize, a: i128) -> (Vec<AuthEntry>, bool) {
         let env = self.sim.env.clone();
@@ -362,7 +384,7 @@ impl World for WorldS {
             let outamt = |rng: &mut Rng| match rng.weighted(&[2, 2, 8, 4, 4]) { 0 => SAmt::Zero, 1 => SAmt::Neg, 2 => SAmt::Lit(rng.range(1, 300) as i64), 3 => SAmt::Held, _ => SAmt::HeldPlus1 };
             let op = match rng.weighted(&w) {
                 0 => SOp::PayGas {
-                    spender: rng.range(2, 3) as u8, token: rng.below(2) as u8, amount: inamt(rng), sender: rng.below(NP as u64) as u8,
+                    spender: if rng.chance(1, 15) { 200 } else { rng.range(2, 3) as u8 }, token: rng.below(2) as u8, amount: inamt(rng), sender: rng.below(NP as u64) as u8,
                     chain: StrSpec::gen(rng), addr: StrSpec::gen(rng), payload: PayloadSpec::gen(rng, false), meta: rng.below(4) as u8,
                     auth: if fault { *rng.pick(&[AuthVar::Counterparty, AuthVar::Owner, AuthVar::Stranger, AuthVar::Nobody, AuthVar::RightOtherArgs, AuthVar::RootOnly]) } else { AuthVar::Right }, abort,
                 },
